@@ -8,6 +8,7 @@ import (
 	"io"
 	"sort"
 	"strings"
+	"sync"
 	"testing"
 	"testing/iotest"
 
@@ -531,4 +532,61 @@ func TestC19_P_GeneratorsOnFlakyStores(t *testing.T) {
 		ev.Case(fmt.Sprintf("%s %s %s s=%s hit=%v", gen, stage, outcome, bucket(size/1024), happened), happened, "gen:"+gen, "stage:"+stage, "outcome:"+outcome, fmt.Sprintf("fault-happened:%v", happened))
 		ev.Sample(map[string]any{"generator": gen, "seed": seed, "size": size, "fail_at": k, "stage": stage, "outcome": outcome, "writes_opened": st.Opens})
 	})
+}
+
+// Fixtures are built in parallel tests: several goroutines, each with its own store, random source and children, run the
+// generators at the same time. Each description has to match the DAG in its own store, as it does when built alone.
+func TestC19_R_ConcurrentFixtureBuilds(t *testing.T) {
+	const G = 8
+	for round := 0; round < 3; round++ {
+		var wg sync.WaitGroup
+		errs := make([]string, G)
+		for g := 0; g < G; g++ {
+			wg.Add(1)
+			go func(g int) {
+				defer wg.Done()
+				p, _ := safe(func() {
+					st := NewStore()
+					ls := st.LinkSystem()
+					rec := &recT{}
+					r := &detReader{s: uint64(1000*round + g + 1)}
+					var kids []testutil.DirEntry
+					for i := 0; i < 300; i++ {
+						f := testutil.GenerateFile(rec, ls, r, 20+i%7)
+						f.Path = fmt.Sprintf("/w%d-%05d", g, i)
+						kids = append(kids, f)
+					}
+					for _, sharded := range []bool{false, true} {
+						de := testutil.BuildDirectory(rec, ls, kids, sharded)
+						if err := c19Check(ls, de, de.Root, de.Path, true, map[string]int{}, 0); err != nil {
+							errs[g] = fmt.Sprintf("BuildDirectory(sharded=%v) of worker %d: %v", sharded, g, err)
+							return
+						}
+					}
+					de, err := testutil.UnixFSDirectory(*ls, 16<<10, testutil.WithRandReader(r), testutil.WithShardBitwidth([]int{0, 2, 4}[g%3]))
+					if err != nil {
+						errs[g] = fmt.Sprintf("UnixFSDirectory of worker %d: %v", g, err)
+						return
+					}
+					if err := c19Check(ls, de, de.Root, de.Path, true, map[string]int{}, 0); err != nil {
+						errs[g] = fmt.Sprintf("UnixFSDirectory of worker %d: %v", g, err)
+						return
+					}
+					gd := testutil.GenerateDirectory(rec, ls, r, 8<<10, g%2 == 0)
+					if err := c19Check(ls, gd, gd.Root, gd.Path, true, map[string]int{}, 0); err != nil {
+						errs[g] = fmt.Sprintf("GenerateDirectory of worker %d: %v", g, err)
+					}
+				})
+				if p != nil {
+					errs[g] = fmt.Sprintf("worker %d: %v", g, p)
+				}
+			}(g)
+		}
+		wg.Wait()
+		for _, e := range errs {
+			if e != "" {
+				t.Fatalf("C19: %d workers building fixtures at the same time, each in its own store (round %d): %s", G, round, e)
+			}
+		}
+	}
 }
